@@ -17,7 +17,8 @@ RULE_TEXT = ("C12-I: every construction of ParseError::Incomplete lies on a path
              "newline-terminated input) or is followed, on the remainder, by a mandatory tag whose failure is propagated; "
              "C12-G: every accepted unit passes a strict consumer (>= 1 byte)."
              " C12-PR: the contracts of the parser combinators the skeleton builds on are read from their bodies - satisfy (accept first byte iff pred / soft error / Incomplete on empty), take_while (never fails; longest prefix, position() form or counting-loop form), optional (never fails; Some(value) or input untouched), tag(b) = satisfy(== b)."
-             " C12-W: every parser application inside a parser is on the enclosing parser's input or on a remainder (suffix) of it, never on a window cut out of it.")
+             " C12-W: every parser application inside a parser is on the enclosing parser's input or on a remainder (suffix) of it, never on a window cut out of it."
+             " C12-L: no parser compares the length of its input or a remainder with a constant from above.")
 
 
 def run(ck):
